@@ -109,6 +109,12 @@ def model_query(items):
                                                      proto_sigs({v: sig[v] for v in vs})))
     res = []
     for o, ln in zip(common.driver_run(lines), lines):
+        if o.startswith("undef"):
+            body, tail = "", o.split("|")[1]
+            nq = len(ln.split("|")[3].split())
+            d, e = tail.split()
+            res.append(([float("nan")] * nq, Fraction(d), None if e == "inf" else Fraction(e)))
+            continue
         if not o.startswith("ok "):
             raise common.HarnessError("dense model: " + o + " on: " + ln)
         body, tail = o[3:].split("|")
@@ -237,3 +243,619 @@ def compare_offline(ctx, f, sig, stream, ctxname="C04"):
     if any(v not in (common.INF, -common.INF) for v in vs) or len(set(vs)) > 1:
         ctx.nontrivial.add((text, tuple((v, tuple(sig[v])) for v in sorted(sig))))
     return None
+
+
+# ======================================================================================
+# dense-time streams of the other properties (called from harness/props/cNN.py)
+# ======================================================================================
+def step_equal(a, b, lo, hi, extra_pts=()):
+    """Compare two sample lists as step functions on [lo, hi]. Returns None or (t, va, vb)."""
+    pts = sorted({t for (t, _) in a if lo <= t <= hi} | {t for (t, _) in b if lo <= t <= hi} | {lo, hi} | set(extra_pts))
+    pts = pts + [(x + y) / 2 for x, y in zip(pts, pts[1:])]
+    for t in sorted(pts):
+        va, vb = step_value(a, t), step_value(b, t)
+        if va is None or vb is None:
+            if va is not vb:
+                return (t, va, vb)
+            continue
+        if va != va or vb != vb:
+            continue
+        if not common.num_eq(va, vb):
+            return (t, va, vb)
+    return None
+
+
+def samples_of(res):
+    return [(Fraction(p[0]), p[1]) for p in res if p[0] != float("inf")]
+
+
+def sig_rep(sig):
+    return {v: [[str(t), x] for t, x in sig[v]] for v in sig}
+
+
+def sig_of_rep(obj):
+    return {v: [(Fraction(t), float(x)) for t, x in s] for v, s in obj.items()}
+
+
+def domain_of(f, sig):
+    (_, dom, end), = model_query([(f, sig, [])])
+    if end is None:          # formula without variables: the signals given still delimit what is compared
+        end = max([s[-1][0] for s in sig.values()] + [dom])
+    return dom, end
+
+
+def online_flat(f, sig, cuts=(), **kw):
+    text, out = run_online(f, sig, list(cuts), **kw)
+    if out[0] != "ok":
+        return text, out
+    return text, ("ok", [p for chunk in out[1] for p in chunk])
+
+
+# -------------------------------------------------------------------------------- C18
+def law_stream(ctx):
+    from .props import c18
+    rng = ctx.subrng("laws-c")
+    for _ in range(ctx.budget(40, 600)):
+        mon = rng.choice(["offc", "offc", "onc"])
+        g = DGen(rng, VARS[:2], DENSE_ON if mon == "onc" else DENSE_OFF, max_bound=rng.choice([2, 4]))
+        laws = [l for l in c18.laws(rng, g, mon == "onc") if "expansion" not in l[0]]
+        for name, lhs, rhs in laws:
+            if mon == "onc" and any(x[0] in ("t2", "tb2") for x in F.subformulas(lhs)):
+                continue          # dense online since: known finding F32 (C05)
+            vs = sorted(set(F.variables(lhs)) | set(F.variables(rhs))) or ["x"]
+            sig = gen_signals(rng, vs)
+            ctx.evaluations += 1
+            ctx.count("law:%s/%s" % (name, mon))
+            v = check_law(ctx, mon, name, lhs, rhs, sig)
+            if v is None:
+                ctx.traces_validated += 1
+            else:
+                ctx.violations.append(v)
+                if len(ctx.violations) >= 3:
+                    return
+
+
+def check_law(ctx, mon, name, lhs, rhs, sig):
+    if mon == "offc":
+        tl, l = eval_offline(lhs, sig)
+        tr, r = eval_offline(rhs, sig)
+    else:
+        tl, l = online_flat(lhs, sig)
+        tr, r = online_flat(rhs, sig)
+    rep = {"law": name, "monitor": mon, "lhs": tl, "rhs": tr, "lhs_proto": F.to_proto(lhs), "rhs_proto": F.to_proto(rhs),
+           "signals": sig_rep(sig), "impl_lhs": l, "impl_rhs": r}
+    if l[0] != "ok" or r[0] != "ok":
+        return Violation("law %s on the %s monitor: evaluation raised %r / %r (%s)" % (name, mon, l[:2], r[:2], tl), rep, stream="laws-c")
+    a, b = samples_of(l[1]), samples_of(r[1])
+    dom, end = domain_of(lhs, sig)
+    if mon == "onc":
+        if not a or not b:
+            return None
+        lo, hi = max(a[0][0], b[0][0]), min(a[-1][0], b[-1][0])
+    else:
+        lo, hi = dom, end
+    if hi is None or lo > hi:
+        return None
+    d = step_equal(a, b, lo, hi)
+    if d:
+        return Violation("law %s fails on the %s monitor at t=%s: lhs %r, rhs %r (%s)" % (name, mon, d[0], d[1], d[2], tl), rep, stream="laws-c")
+    ctx.nontrivial.add((name, mon, tl, str(rep["signals"])))
+    return None
+
+
+def replay_law(ctx, obj):
+    v = check_law(Ctx(ctx.id, ctx.tier, ctx.seed), obj["monitor"], obj["law"], F.from_proto(obj["lhs_proto"]),
+                  F.from_proto(obj["rhs_proto"]), sig_of_rep(obj["signals"]))
+    return (v is None), (v.what if v else "both sides agree")
+
+
+# -------------------------------------------------------------------------------- C07
+def sign_stream(ctx):
+    rng = ctx.subrng("sign-c")
+    for _ in range(ctx.budget(80, 1500)):
+        mon = rng.choice(["offc", "offc", "onc"])
+        allow = (DENSE_ON if mon == "onc" else DENSE_OFF) - {"iffxor"} - ({"since", "bsince"} if mon == "onc" else set())
+        g = DGen(rng, VARS[:2], allow, max_bound=rng.choice([2, 4]))
+        f = g.formula(rng.choice([1, 2, 3]))
+        vs = F.variables(f) or ["x"]
+        sig = gen_signals(rng, vs)
+        ctx.evaluations += 1
+        ctx.count("monitor:" + mon)
+        v = check_sign(ctx, mon, f, sig)
+        if v is None:
+            ctx.traces_validated += 1
+        else:
+            ctx.violations.append(v)
+            if len(ctx.violations) >= 3:
+                return
+
+
+def boolean_form(f):
+    """All predicates replaced by their +-inf form: rhoD of it is the Boolean semantics."""
+    o = common.driver_run(["ia | outRob | %s | %s" % (",".join(F.variables(f)), F.to_proto(f))])[0]
+    return F.from_proto(o[3:])
+
+
+def check_sign(ctx, mon, f, sig):
+    text, out = eval_offline(f, sig) if mon == "offc" else online_flat(f, sig)
+    rep = {"monitor": mon, "spec": text, "formula": F.to_proto(f), "signals": sig_rep(sig), "impl": out}
+    if out[0] != "ok":
+        return Violation("%s raised %r on %s" % (mon, out[1:], text), rep, stream="sign-c")
+    a = samples_of(out[1])
+    if not a:
+        return None
+    dom, end = domain_of(f, sig)
+    lo, hi = (dom, end) if mon == "offc" else (a[0][0], a[-1][0])
+    qs = [q for q in query_times(sig, f, [t for t, _ in a], dom, end) if lo <= q <= hi]
+    (sat, _, _), = model_query([(boolean_form(f), sig, qs)])
+    for q, s in zip(qs, sat):
+        v = step_value(a, q)
+        if v is None or s is None or v != v:
+            continue
+        if (v > 0 and s != common.INF) or (v < 0 and s != -common.INF):
+            rep["model_boolean"] = [[str(x), y] for x, y in zip(qs, sat)]
+            return Violation("%s monitor: value %r at t=%s but the specification is %s there: %s"
+                             % (mon, v, q, "satisfied" if s == common.INF else "violated", text), rep, stream="sign-c")
+    if any(step_value(a, q) not in (common.INF, -common.INF, 0.0, None) for q in qs):
+        ctx.nontrivial.add((mon, text, str(rep["signals"])))
+    return None
+
+
+def replay_sign(ctx, obj):
+    v = check_sign(Ctx(ctx.id, ctx.tier, ctx.seed), obj["monitor"], F.from_proto(obj["formula"]), sig_of_rep(obj["signals"]))
+    return (v is None), (v.what if v else "sign is sound")
+
+
+# -------------------------------------------------------------------------------- C16
+def extension_stream(ctx):
+    rng = ctx.subrng("ext-c")
+    for _ in range(ctx.budget(80, 1500)):
+        g = DGen(rng, VARS[:2], DENSE_OFF - {"ufuture", "until"}, max_bound=rng.choice([2, 4]))
+        f = g.formula(rng.choice([1, 2, 3]))
+        vs = F.variables(f) or ["x"]
+        w1 = gen_signals(rng, vs)
+        end1 = max(s[-1][0] for s in w1.values())
+        w2 = {}
+        for v in vs:
+            tail = gen_signal(rng, end1 + GRID * rng.choice([1, 2, 4]), nmax=4)
+            w2[v] = w1[v] + [(t, rng.choice((-9.0, 9.0, 100.0, -100.0, 0.0))) for (t, _) in tail]
+        ctx.evaluations += 1
+        ctx.count("stream:ext-c")
+        v = check_extension(ctx, f, w1, w2)
+        if v is None:
+            ctx.traces_validated += 1
+        else:
+            ctx.violations.append(v)
+            if len(ctx.violations) >= 3:
+                return
+
+
+def dense_horizon(f):
+    o = common.driver_run(["past | " + F.to_proto(strip_unsupported(f))])[0]
+    return Fraction(int(o[3:].split("|")[0])) * SCALE if o.startswith("ok ") else None
+
+
+def strip_unsupported(f):
+    return f
+
+
+def check_extension(ctx, f, w1, w2):
+    t1, o1 = eval_offline(f, w1)
+    t2, o2 = eval_offline(f, w2)
+    h = dense_horizon(f)
+    rep = {"monitor": "offc", "spec": t1, "formula": F.to_proto(f), "w1": sig_rep(w1), "w2": sig_rep(w2), "horizon": str(h),
+           "impl_w1": o1, "impl_w2": o2}
+    if o1[0] != "ok" or o2[0] != "ok":
+        return Violation("dense offline raised %r / %r: %s" % (o1[:2], o2[:2], t1), rep, stream="ext-c")
+    dom, end1 = domain_of(f, w1)
+    if h is None or end1 is None or end1 - h <= dom:
+        return None
+    a, b = samples_of(o1[1]), samples_of(o2[1])
+    hi = end1 - h - GRID / 2          # strictly inside: t + h < end of w1
+    if hi < dom:
+        return None
+    d = step_equal(a, b, dom, hi)
+    if d:
+        return Violation("settled value at t=%s (horizon %s, end of w1 %s) changes from %r to %r when the signals are extended: %s"
+                         % (d[0], h, end1, d[1], d[2], t1), rep, stream="ext-c")
+    ctx.nontrivial.add((t1, str(rep["w1"])))
+    return None
+
+
+# -------------------------------------------------------------------------------- C10
+def reset_stream(ctx):
+    rng = ctx.subrng("reset-c")
+    for _ in range(ctx.budget(80, 1200)):
+        g = DGen(rng, VARS[:2], DENSE_ON, max_bound=rng.choice([2, 4]))
+        f = g.formula(rng.choice([1, 2, 3]))
+        vs = F.variables(f) or ["x"]
+        pre = gen_signals(rng, vs)
+        post = gen_signals(rng, vs)
+        ctx.evaluations += 1
+        ctx.count("stream:reset-c")
+        v = check_reset(ctx, f, pre, post, rng.random() < 0.15)
+        if v is None:
+            ctx.traces_validated += 1
+        else:
+            ctx.violations.append(v)
+            if len(ctx.violations) >= 3:
+                return
+
+
+def check_reset(ctx, f, pre, post, no_history):
+    vs = sorted(post)
+    text = spec_text(f)
+
+    def go():
+        a = impl.make_spec("onc", text, vs)
+        a.parse()
+        if not no_history:
+            a.update(*[[v, py_sig(pre[v])] for v in vs])
+        a.reset()
+        ra = a.update(*[[v, py_sig(post[v])] for v in vs])
+        b = impl.make_spec("onc", text, vs)
+        b.parse()
+        rb = b.update(*[[v, py_sig(post[v])] for v in vs])
+        return ra, rb
+    out = impl.guarded(go)
+    rep = {"monitor": "onc", "spec": text, "formula": F.to_proto(f), "pre": sig_rep(pre), "post": sig_rep(post),
+           "no_history": no_history, "impl": out}
+    if out[0] != "ok":
+        # a fresh monitor that raises on the post inputs alone is not a reset problem
+        def fresh():
+            b = impl.make_spec("onc", text, vs)
+            b.parse()
+            return b.update(*[[v, py_sig(post[v])] for v in vs])
+        if impl.guarded(fresh)[0] != "ok":
+            return None
+        return Violation("dense online reset()/update() raised %r: %s" % (out[1:], text), rep, stream="reset-c")
+    ra, rb = out[1]
+    if [[float(p[0]), common.canon(p[1])] for p in ra] != [[float(p[0]), common.canon(p[1])] for p in rb]:
+        return Violation("dense online: after reset() the monitor returns %r, a fresh one %r: %s" % (ra, rb, text), rep, stream="reset-c")
+    if rb:
+        ctx.nontrivial.add((text, str(rep["pre"]), str(rep["post"])))
+    return None
+
+
+def replay_reset(ctx, obj):
+    v = check_reset(Ctx(ctx.id, ctx.tier, ctx.seed), F.from_proto(obj["formula"]), sig_of_rep(obj["pre"]), sig_of_rep(obj["post"]),
+                    obj["no_history"])
+    return (v is None), (v.what if v else "reset monitor behaves like a fresh one")
+
+
+# -------------------------------------------------------------------------------- C17
+DENSE_UNSUPPORTED_BOTH = [("t1", "prev"), ("t1", "next"), ("t1", "rise"), ("t1", "fall")]
+DENSE_UNSUPPORTED_ONLINE = [("t1", "ev"), ("t1", "alw"), ("t2", "until"), ("tb1", "ev"), ("tb1", "alw"), ("tb2", "until")]
+
+
+def wf_stream(ctx):
+    from .props import c17
+    rng = ctx.subrng("wf-c")
+    for _ in range(ctx.budget(120, 2000)):
+        mon = rng.choice(["offc", "onc"])
+        g = DGen(rng, VARS[:2], DENSE_ON if mon == "onc" else DENSE_OFF, max_bound=4)
+        f = g.formula(rng.choice([1, 2, 3]))
+        bad = rng.random() < 0.5
+        if bad:
+            ops = DENSE_UNSUPPORTED_BOTH + (DENSE_UNSUPPORTED_ONLINE if mon == "onc" else [])
+            f = c17.inject(rng, g, f, ops)
+        vs = F.variables(f) or ["x"]
+        sig = gen_signals(rng, vs)
+        if not bad and rng.random() < 0.3:
+            sig = {v: s[:1] for v, s in sig.items()}          # one-sample signals
+        surplus = rng.random() < 0.3
+        ctx.evaluations += 1
+        ctx.count("kind:%s-%s" % ("bad" if bad else "ok", mon))
+        v = check_wf(ctx, mon, f, sig, bad, surplus)
+        if v is None:
+            ctx.traces_validated += 1
+        else:
+            ctx.violations.append(v)
+            if len(ctx.violations) >= 3:
+                return
+
+
+def check_wf(ctx, mon, f, sig, bad, surplus):
+    text = spec_text(f)
+    vs = sorted(sig)
+
+    def go():
+        spec = impl.make_spec(mon, text, vs, extra_decl=["unused1"] if surplus else [])
+        spec.parse()
+        args = [[v, py_sig(sig[v])] for v in vs]
+        return spec.evaluate(*args) if mon == "offc" else spec.update(*args)
+    out = impl.guarded(go)
+    rep = {"kind": ("bad-" if bad else "ok-") + mon, "spec": text, "formula": F.to_proto(f), "signals": sig_rep(sig), "surplus": surplus,
+           "impl": out}
+    ctx.nontrivial.add((rep["kind"], text, str(rep["signals"])))
+    if bad and out[0] != "rtamt":
+        return Violation("dense %s monitor: unsupported construct not rejected with RTAMTException (outcome %r): %s"
+                         % (mon, out[:2] if out[0] != "ok" else "ok", text), rep, stream="wf-c")
+    if not bad and out[0] != "ok":
+        return Violation("dense %s monitor: well-formed use raised %r: %s" % (mon, out[1:], text), rep, stream="wf-c")
+    return None
+
+
+def replay_wf(ctx, obj):
+    mon = obj["kind"].split("-")[1]
+    v = check_wf(Ctx(ctx.id, ctx.tier, ctx.seed), mon, F.from_proto(obj["formula"]), sig_of_rep(obj["signals"]),
+                 obj["kind"].startswith("bad"), obj["surplus"])
+    return (v is None), (v.what if v else "outcome as required")
+
+
+# -------------------------------------------------------------------------------- C06
+def ia_stream(ctx):
+    from .props import c06
+    rng = ctx.subrng("ia-c")
+    for _ in range(ctx.budget(100, 2000)):
+        mon = rng.choice(["offc", "onc"])
+        allow = (DENSE_ON - {"since", "bsince"}) if mon == "onc" else DENSE_OFF
+        g = DGen(rng, VARS, allow, max_bound=rng.choice([2, 4]))
+        f = g.formula(rng.choice([1, 2, 3]))
+        vs = F.variables(f) or ["x"]
+        io = {v: rng.choice(["input", "output"]) for v in vs if rng.random() < 0.8}
+        sem = rng.choice(list(c06.SEMS))
+        sig = gen_signals(rng, vs)
+        ctx.evaluations += 1
+        ctx.count("monitor:%s/%s" % (mon, sem))
+        v = check_ia(ctx, mon, f, sig, sem, io)
+        if v is None:
+            ctx.traces_validated += 1
+        else:
+            ctx.violations.append(v)
+            if len(ctx.violations) >= 3:
+                return
+
+
+def check_ia(ctx, mon, f, sig, sem, io):
+    from .props import c06
+    kw = dict(semantics=c06.SEMS[sem], io=io)
+    text, out = eval_offline(f, sig, **kw) if mon == "offc" else online_flat(f, sig, **kw)
+    o = common.driver_run(["ia | %s | %s | %s" % (sem, ",".join(v for v, t in io.items() if t == "input"), F.to_proto(f))])[0]
+    tf = F.from_proto(o[3:])
+    rep = {"monitor": mon, "semantics": sem, "io": io, "spec": text, "formula": F.to_proto(f), "transformed": F.to_proto(tf),
+           "signals": sig_rep(sig), "impl": out}
+    if out[0] != "ok":
+        return Violation("dense %s monitor, %s semantics, io=%r raised %r: %s" % (mon, sem, io, out[1:], text), rep, stream="ia-c")
+    a = samples_of(out[1])
+    if not a:
+        return None
+    dom, end = domain_of(f, sig)
+    lo, hi = (dom, end) if mon == "offc" else (a[0][0], a[-1][0])
+    qs = [q for q in query_times(sig, f, [t for t, _ in a], dom, end) if lo <= q <= hi]
+    (vals, _, _), = model_query([(tf, sig, qs)])
+    for q, mv in zip(qs, vals):
+        iv = step_value(a, q)
+        if mv is None or iv is None or mv != mv or iv != iv:
+            continue
+        if not common.num_eq(iv, mv):
+            rep["model_at"] = [[str(x), y] for x, y in zip(qs, vals)]
+            return Violation("dense %s monitor, %s semantics, io=%r: value at t=%s is %r; standard evaluation with the insensitive "
+                             "predicates replaced gives %r: %s" % (mon, sem, io, q, iv, mv, text), rep, stream="ia-c")
+    ctx.nontrivial.add((mon, sem, str(sorted(io.items())), text, str(rep["signals"])))
+    return None
+
+
+def replay_ia(ctx, obj):
+    v = check_ia(Ctx(ctx.id, ctx.tier, ctx.seed), obj["monitor"], F.from_proto(obj["formula"]), sig_of_rep(obj["signals"]),
+                 obj["semantics"], obj["io"])
+    return (v is None), (v.what if v else "IA result agrees with the model")
+
+
+# -------------------------------------------------------------------------------- C08
+def units_stream(ctx):
+    rng = ctx.subrng("units-c")
+    for _ in range(ctx.budget(60, 1000)):
+        mon = rng.choice(["offc", "offc", "onc"])
+        allow = ({"cmp", "arith", "bool", "not", "bpast", "bfuture", "buntil", "bsince"} if mon == "offc"
+                 else {"cmp", "arith", "bool", "not", "bpast"})
+        g = DGen(rng, VARS[:2], allow, max_bound=rng.choice([2, 4, 8]))
+        for _k in range(30):
+            f = g.formula(rng.choice([2, 3]))
+            if any(x[0] in ("tb1", "tb2") for x in F.subformulas(f)):
+                break
+        vs = F.variables(f) or ["x"]
+        sig = gen_signals(rng, vs)
+        ctx.evaluations += 1
+        ctx.count("monitor:" + mon)
+        v = check_units(ctx, mon, f, sig, rng.randint(0, 10 ** 6))
+        if v is None:
+            ctx.traces_validated += 1
+        else:
+            ctx.violations.append(v)
+            if len(ctx.violations) >= 3:
+                return
+
+
+def check_units(ctx, mon, f, sig, seed):
+    import random
+    from .props import c08
+    rng = random.Random(seed)
+    base_t, base = eval_offline(f, sig) if mon == "offc" else online_flat(f, sig)
+    rep = {"monitor": mon, "formula": F.to_proto(f), "signals": sig_rep(sig), "baseline_spec": base_t, "baseline": base, "seed": seed}
+    if base[0] != "ok":
+        return Violation("dense %s baseline raised %r: %s" % (mon, base[1:], base_t), rep, stream="units-c")
+    a = samples_of(base[1])
+    for _ in range(3):
+        # same default unit (s: the time stamps are seconds), each bound spelled in a random unit on either/both ends
+        rec = []
+        text = c08.render(rng, f, "s", int(SCALE * 10 ** 9), rec)
+        t2, out = eval_offline(f, sig, text=text, unit="s") if mon == "offc" else online_flat(f, sig, text=text)
+        rep2 = dict(rep, spec=text, impl=out)
+        if out[0] != "ok":
+            return Violation("dense %s: rendering with the same durations raised %r: %s" % (mon, out[1:], text), rep2, stream="units-c")
+        b = samples_of(out[1])
+        if not a or not b:
+            continue
+        d = step_equal(a, b, max(a[0][0], b[0][0]), min(a[-1][0], b[-1][0]))
+        if d:
+            return Violation("dense %s: results differ between two renderings with the same durations at t=%s (%r vs %r): %s  vs  %s"
+                             % (mon, d[0], d[1], d[2], text, base_t), rep2, stream="units-c")
+    if a:
+        ctx.nontrivial.add((mon, base_t, str(rep["signals"])))
+    return None
+
+
+def replay_units(ctx, obj):
+    v = check_units(Ctx(ctx.id, ctx.tier, ctx.seed), obj["monitor"], F.from_proto(obj["formula"]), sig_of_rep(obj["signals"]), obj["seed"])
+    return (v is None), (v.what if v else "renderings agree")
+
+
+# -------------------------------------------------------------------------------- C09 / C12
+def modular_cases(ctx, rng, count, allow_on):
+    from . import modular as M
+    for _ in range(count):
+        mon = rng.choice(["offc", "offc", "onc"])
+        allow = allow_on if mon == "onc" else DENSE_OFF
+        c = None
+        for _k in range(20):
+            g = DGen(rng, VARS, allow, max_bound=rng.choice([2, 4]))
+            f = g.formula(rng.choice([2, 3, 4]))
+            if F.size(f) >= 4:
+                break
+        defs = M.add_repeats(rng, M.decompose(rng, f))
+        inl = M.inline(defs)
+        vs = sorted({v for nm in inl for v in F.variables(inl[nm])}) or ["x"]
+        yield {"monitor": mon, "defs": defs, "inl": inl, "f": inl["out"], "vars": vs, "sig": gen_signals(rng, vs),
+               "style": rng.choice(["text", "sub_spec"])}
+
+
+def dense_build(case, modular=True, only=None):
+    from . import modular as M
+    kind = case["monitor"]
+    if only is not None:
+        text = "%s = %s" % (only, F.to_text(case["inl"][only], bound=bound_txt))
+        spec = impl.make_spec(kind, text, case["vars"], extra_decl=[only] if only != "out" else [])
+    elif not modular:
+        spec = impl.make_spec(kind, spec_text(case["f"]), case["vars"])
+    else:
+        names = [nm for nm, _ in case["defs"][:-1]]
+        lines = ["%s = %s;" % (nm, F.to_text(b, bound=bound_txt)) for nm, b in case["defs"]]
+        if case["style"] == "text":
+            spec = impl.make_spec(kind, "\n".join(lines), case["vars"], extra_decl=names)
+        else:
+            spec = impl.make_spec(kind, lines[-1], case["vars"], extra_decl=names, sub_specs=lines[:-1])
+    spec.parse()
+    return spec
+
+
+def dense_run(case, modular=True, only=None, read_names=False):
+    vs, sig = case["vars"], case["sig"]
+    names = [nm for nm, _ in case["defs"]]
+
+    def go():
+        spec = dense_build(case, modular, only)
+        args = [[v, py_sig(sig[v])] for v in vs]
+        res = spec.evaluate(*args) if case["monitor"] == "offc" else spec.update(*args)
+        got = {}
+        if read_names:
+            for nm in names:
+                got[nm] = spec.get_value(nm)
+        return res, got
+    return impl.guarded(go)
+
+
+def mod_rep(case):
+    return {"monitor": case["monitor"], "defs": [[nm, F.to_proto(b)] for nm, b in case["defs"]], "style": case["style"],
+            "signals": sig_rep(case["sig"]), "spec": "; ".join("%s = %s" % (nm, F.to_text(b, bound=bound_txt)) for nm, b in case["defs"])}
+
+
+def mod_case(obj):
+    from . import modular as M
+    defs = [(nm, F.from_proto(b)) for nm, b in obj["defs"]]
+    inl = M.inline(defs)
+    sig = sig_of_rep(obj["signals"])
+    return {"monitor": obj["monitor"], "defs": defs, "inl": inl, "f": inl["out"], "vars": sorted(sig), "sig": sig, "style": obj["style"]}
+
+
+def same_steps(a, b, mon, f, sig):
+    a, b = samples_of(a), samples_of(b)
+    if not a and not b:
+        return None
+    if not a or not b:
+        return ("-", a[:1], b[:1])
+    if mon == "offc":
+        lo, hi = domain_of(f, sig)
+    else:
+        lo, hi = max(a[0][0], b[0][0]), min(a[-1][0], b[-1][0])
+        if a[0][0] != b[0][0] or a[-1][0] != b[-1][0]:
+            return ("coverage", (str(a[0][0]), str(a[-1][0])), (str(b[0][0]), str(b[-1][0])))
+    return step_equal(a, b, lo, hi)
+
+
+def check_modular(ctx, case):
+    rep = mod_rep(case)
+    mod = dense_run(case, True)
+    inl = dense_run(case, False)
+    rep.update({"impl_modular": mod, "impl_inlined": inl})
+    if inl[0] != "ok":
+        return None if case["monitor"] == "onc" else Violation("dense inlined specification raised %r: %s" % (inl[1:], rep["spec"]), rep, stream="mod-c")
+    if mod[0] != "ok":
+        return Violation("dense %s: modular specification raised %r (the inlined one evaluates): %s" % (case["monitor"], mod[1:], rep["spec"]),
+                         rep, stream="mod-c")
+    d = same_steps(mod[1][0], inl[1][0], case["monitor"], case["f"], case["sig"])
+    if d:
+        return Violation("dense %s: modular and inlined specification differ at t=%s (%r vs %r): %s" % (case["monitor"], d[0], d[1], d[2], rep["spec"]),
+                         rep, stream="mod-c")
+    ctx.nontrivial.add((case["monitor"], rep["spec"], str(rep["signals"])))
+    return None
+
+
+def modular_stream(ctx):
+    rng = ctx.subrng("mod-c")
+    for c in modular_cases(ctx, rng, ctx.budget(60, 1000), DENSE_ON - {"since", "bsince"}):
+        ctx.evaluations += 1
+        ctx.count("monitor:" + c["monitor"])
+        v = check_modular(ctx, c)
+        if v is None:
+            ctx.traces_validated += 1
+        else:
+            ctx.violations.append(v)
+            if len(ctx.violations) >= 3:
+                return
+
+
+def replay_modular(ctx, obj):
+    v = check_modular(Ctx(ctx.id, ctx.tier, ctx.seed), mod_case(obj))
+    return (v is None), (v.what if v else "modular and inlined agree")
+
+
+def check_getvalue(ctx, case):
+    rep = mod_rep(case)
+    got = dense_run(case, True, read_names=True)
+    rep["impl"] = got
+    if got[0] != "ok":
+        ok_inl = dense_run(case, False)
+        if ok_inl[0] != "ok" and case["monitor"] == "onc":
+            return None
+        return Violation("dense %s: evaluate/update/get_value raised %r: %s" % (case["monitor"], got[1:], rep["spec"]), rep, stream="getv-c")
+    for nm, _ in case["defs"]:
+        alone = dense_run(case, only=nm)
+        ctx.evaluations += 1
+        if alone[0] != "ok":
+            continue
+        d = same_steps(got[1][1][nm], alone[1][0], case["monitor"], case["inl"][nm], case["sig"])
+        if d:
+            return Violation("dense %s: get_value(%r) differs from the stand-alone specification at t=%s (%r vs %r): %s"
+                             % (case["monitor"], nm, d[0], d[1], d[2], rep["spec"]), dict(rep, name=nm, standalone=alone), stream="getv-c")
+    ctx.nontrivial.add((case["monitor"], rep["spec"], str(rep["signals"])))
+    return None
+
+
+def getvalue_stream(ctx):
+    rng = ctx.subrng("getv-c")
+    for c in modular_cases(ctx, rng, ctx.budget(50, 800), DENSE_ON - {"since", "bsince"}):
+        ctx.evaluations += 1
+        ctx.count("monitor:" + c["monitor"])
+        v = check_getvalue(ctx, c)
+        if v is None:
+            ctx.traces_validated += 1
+        else:
+            ctx.violations.append(v)
+            if len(ctx.violations) >= 3:
+                return
+
+
+def replay_getvalue(ctx, obj):
+    v = check_getvalue(Ctx(ctx.id, ctx.tier, ctx.seed), mod_case(obj))
+    return (v is None), (v.what if v else "get_value agrees with stand-alone specifications")
